@@ -65,6 +65,16 @@ def impl(case):
     calc = (lambda x: card.calculate_check_digit(card_number=x)) if kw else card.calculate_check_digit
     add = (lambda x: card.add_check_digit(card_number=x)) if kw else card.add_check_digit
     val = (lambda x: card.validate_check_digit(card_number=x)) if kw else card.validate_check_digit
+    digits = ''.join(ch for ch in s if ch.isdigit())
+    if len(digits) >= 7 and zlib.crc32(s.encode('utf8', 'replace')) % 3 == 0:
+        # earlier calls in the same process on RELATED numbers: the same first six digits with a body one digit longer
+        # (the other length parity), the same number without its first digit, the same digits with one more
+        for rel in (digits[:6] + '5' * (len(digits) - 5), digits[:6] + digits[7:], digits[1:], digits + '0', digits[:-1]):
+            for fn in (calc, add, lambda x: val(add(x))):
+                try:
+                    fn(rel)
+                except Exception:
+                    pass
     if case['kind'] == 'calc':
         return {'calc': outcome(lambda: calc(s), hs)}
     if case['kind'] == 'append':
